@@ -3,6 +3,7 @@ import contextlib
 import io
 import json
 import math
+import os
 from fractions import Fraction
 
 import core
@@ -82,6 +83,9 @@ class C07(core.Prop):
         ]
 
     def gen_case(self, rng, i):
+        if rng.random() < 0.25:
+            from props import c08
+            return {'kind': 'db', 'table': c08.gen_table(rng)}
         fr = cx.gen_frame(rng, maxcols=1)
         col = fr['cols'][0]
         return {'col': col, 'rex': rng.random() < 0.3}
@@ -105,6 +109,13 @@ class C07(core.Prop):
         return res
 
     def model_ops(self, case):
+        if case.get('kind') == 'db':
+            from props import c08
+            st, cons = self._db(case)
+            if st == 'exc' or cons is None:
+                return []
+            return [{'op': 'cx.discover', 'col': c08.model_col(col), 'nrec': case['table']['nrows'], 'inc_rex': False, 'rex_ids': []}
+                    for col in case['table']['cols']]
         try:
             mc = cx.model_col(case['col'])
         except ValueError:
@@ -123,6 +134,17 @@ class C07(core.Prop):
         return ops
 
     def impl_outputs(self, case):
+        if case.get('kind') == 'db':
+            from props import c08
+            st, cons = self._db(case)
+            out = []
+            for col in case['table']['cols']:
+                if col['name'] not in cons.fields:
+                    out.append(None)
+                else:
+                    ks = [constraint_json(c) for c in cons.fields[col['name']].constraints.values()]
+                    out.append(c08.sort_allowed(c08.as_bool_vals(canon_constraints(ks), c08.DECLS[col['decl']])))
+            return out
         df = self._df(case)
         name = case['col']['name']
         calc = PandasConstraintCalculator(df)
@@ -154,6 +176,10 @@ class C07(core.Prop):
         return [out, disc]
 
     def canon_model(self, case, outs):
+        if case.get('kind') == 'db':
+            from props import c08
+            return [None if o.get('ok') is None else c08.sort_allowed(canon_constraints(o['ok'])) if 'ok' in o
+                    else {'exc': o.get('exc')} for o in outs]
         res = []
         for o in outs:
             if 'ok' not in o:
@@ -176,6 +202,9 @@ class C07(core.Prop):
         return res
 
     def nontrivial_key(self, case):
+        if case.get('kind') == 'db':
+            self.count('kind_db')
+            return json.dumps(case, sort_keys=True) if case['table']['nrows'] >= 2 else None
         self.count('fam_' + case['col']['fam'])
         if sum(c is not None for c in case['col']['cells']) >= 2:
             return json.dumps(case, sort_keys=True, default=str)
@@ -185,6 +214,8 @@ class C07(core.Prop):
     def oracle(self, case):
         F = []
         fail = lambda clause, detail, key=None: F.append(core.Failure(clause, case, detail, key or clause))
+        if case.get('kind') == 'db':
+            return self.db_oracle(case, fail) or F
         col = case['col']
         fam, cells, name = col['fam'], col['cells'], col['name']
         ftype = cx.col_ftype(col)
@@ -195,6 +226,12 @@ class C07(core.Prop):
         got = {}
         if cs is not None and name in cs.fields:
             got = {k: c.value for k, c in cs.fields[name].constraints.items()}
+        self._judge(fail, got, ftype, fam, cells)
+        return F
+
+    def _judge(self, fail, got, ftype, fam, cells):
+        """the statement, clause by clause, against the statistics recomputed from the cells"""
+        F = None
         if ftype == 'other':
             if got:
                 fail('other-type-constraints', 'constraints %r discovered for an unrecognised column' % got)
@@ -282,6 +319,60 @@ class C07(core.Prop):
                  % (got_nd, want_nd, ftype, len(nn), distinct_all),
                  'no_duplicates:never-for-%s' % ftype if (want_nd and ftype in ('bool', 'date')) else 'no_duplicates')
         return F
+
+
+    # ------------------------------------------------------------------ SQLite tables
+    def _db(self, case):
+        key = json.dumps(case, sort_keys=True)
+        if getattr(self, '_dbk', None) == key:
+            return self._dbv
+        import tempfile, shutil
+        from props import c08
+        from tdda.constraints import discover_db_table
+        from tdda.constraints.db.drivers import database_connection
+        d = tempfile.mkdtemp(prefix='c07db_')
+        try:
+            path = os.path.join(d, 't.sqlite3')
+            c08.build(path, case['table'])
+            try:
+                with quiet():
+                    db = database_connection(dbtype='sqlite', db=path)
+                    cons = discover_db_table('sqlite', db, 't', inc_rex=False)
+                res = ('ok', cons)
+            except BaseException as e:   # noqa
+                res = ('exc', e)
+        finally:
+            shutil.rmtree(d, ignore_errors=True)
+        self._dbk, self._dbv = key, res
+        return res
+
+    def db_oracle(self, case, fail):
+        from props import c08
+        st, cons = self._db(case)
+        if st == 'exc':
+            return None      # raising is C08's clause
+        for col in case['table']['cols']:
+            ftype = c08.DECLS[col['decl']]
+            cells = []
+            for v in col['cells']:
+                if v is None:
+                    cells.append(None)
+                elif ftype == 'date':
+                    import datetime as _dt
+                    cells.append(_dt.datetime.strptime(v, c08.FMT))
+                elif ftype == 'real':
+                    cells.append(float(v))
+                else:
+                    cells.append(v)
+            got = {}
+            if cons is not None and col['name'] in cons.fields:
+                got = {k: c.value for k, c in cons.fields[col['name']].constraints.items()}
+            self.count('db_' + col['decl'])
+            self._judge(lambda clause, detail, key=None: fail(clause, 'sqlite %s column %r: %s' % (col['decl'], col['name'], detail),
+                                                              # (the shared discovery logic: same call site, same key as for frames)
+                                                              (key if (key or '').startswith('no_duplicates:never-for-') else 'db:' + (key or clause))),
+                        got, ftype, 'db-' + col['decl'], cells)
+        return None
 
 
 PROP = C07
